@@ -17,6 +17,7 @@ Lemma non_cancellable_today :
     ("publishBlockInternal", "wait", "g.Wait");
     ("SyncLoop", "send", "errCh");
     ("SyncLoop", "send", "errCh");
+    ("SyncLoop", "send", "errCh");
     ("handlePotentialData", "send", "m.dataInCh");
     ("handlePotentialHeader", "send", "m.headerInCh");
     ("HeaderStoreRetrieveLoop", "send", "m.headerInCh");
